@@ -31,7 +31,8 @@ EXTENDS DbgAdapter
 (* =============================== the closed system =============================== *)
 CONSTANTS Prog,          \* the program under debug
           Fuel,          \* bound on the run length
-          BpSets,        \* breakpoint sets (instruction indices) the client may install
+          Lines,         \* Lines[k] = source line of instruction k (several instructions may share a line)
+          BpSets,        \* breakpoint sets (SOURCE LINES) the client may install
           MaxReq,        \* number of requests the client sends after launch
           Deviations
 
@@ -47,31 +48,40 @@ vars == <<s, req, cl, nreq, lk, g>>
 
 NoReq == [k |-> "none", b |-> {}]
 G0 == [halt |-> [on |-> FALSE, pc |-> 0, ix |-> 0, rix |-> 0],
-       arm |-> {}, stopIx |-> 0, skipped |-> FALSE, race |-> FALSE,
+       curL |-> {}, arm |-> {}, stopIx |-> 0, skipped |-> FALSE, race |-> FALSE,
+       probe |-> [on |-> FALSE, ix |-> 0, L |-> {}], skippedP |-> FALSE,
        stepFrom |-> 0, stepWant |-> {}, stepBad |-> FALSE, insp |-> [on |-> FALSE, pc |-> 0, ix |-> 0, seen |-> FALSE]]
 
-Init == /\ \E b \in BpSets : s = Start(AInit(b))      \* launch, setBreakpoints, configurationDone
-        /\ req = NoReq /\ cl = "running" /\ nreq = 0 /\ lk = "free" /\ g = G0
+(* SetBreakpointsRequestHandler: a source line -> all pc ranges assembled from it. "FirstPcOnly" and "StaleBpCopy" are  *)
+(* HYPOTHETICAL deviations (not recorded for the tree): they exist to show that NoSkippedBreakpoint / NoSkipAfterProbe  *)
+(* are not vacuous (MC_Debugger_cex_dup.cfg, MC_Debugger_cex_stale.cfg).                                                *)
+BpPcs(L) == IF "FirstPcOnly" \in Deviations THEN FirstPcOfLines(Lines, L) ELSE PcsOfLines(Lines, L)
+LineAt(j) == Lines[Pc(R, j)]
+Init == /\ \E b \in BpSets : s = Start(AInit(BpPcs(b))) /\ g = [G0 EXCEPT !.curL = b]   \* launch, setBreakpoints, configurationDone
+        /\ req = NoReq /\ cl = "running" /\ nreq = 0 /\ lk = "free"
 
 Halt(sn, reported) == [on |-> TRUE, pc |-> sn.st.pc, ix |-> sn.ix, rix |-> reported]
 NoHalt == [on |-> FALSE, pc |-> 0, ix |-> 0, rix |-> 0]
 
 (* machine *)
-AMRead  == /\ MReadEn(s) /\ s' = MRead(s)
-           /\ g' = [g EXCEPT !.arm = s.bps]            \* breakpoints installed before this iteration read the state
+AMRead  == /\ MReadEn(s)
+           /\ s' = IF "StaleBpCopy" \in Deviations /\ s.st.k # "Running" THEN [MRead(s) EXCEPT !.cbps = s.bps] ELSE MRead(s)
+           /\ g' = [g EXCEPT !.arm = g.curL]           \* lines with a breakpoint installed before this iteration read the state
            /\ UNCHANGED <<req, cl, nreq, lk>>
-AMCheck == /\ MCheckEn(s) /\ s' = MCheck(R, s)
-           /\ g' = IF MCheckHit(R, s) THEN [g EXCEPT !.halt = Halt(s', s.ix), !.stopIx = s.ix] ELSE g
+BpView == IF "StaleBpCopy" \in Deviations THEN s.cbps ELSE s.bps
+AMCheck == /\ MCheckEn(s) /\ s' = MCheckWith(R, s, BpView)
+           /\ g' = IF MCheckHitWith(R, s, BpView) THEN [g EXCEPT !.halt = Halt(s', s.ix), !.stopIx = s.ix, !.probe = [on |-> FALSE, ix |-> 0, L |-> {}]] ELSE g
            /\ UNCHANGED <<req, cl, nreq, lk>>
 AMExec  == /\ MExecEn(s) /\ s' = MExec(R, s, Deviations)
            /\ g' = IF MExecRuns(s, Deviations) /\ ~AtEnd(R, s.ix)
                    THEN [g EXCEPT !.race = @ \/ s.st.k # "Running" \/ s.sp = "pset",
-                                  !.skipped = @ \/ (s.st.k = "Running" /\ Pc(R, s.ix) \in g.arm /\ g.stopIx # s.ix)]
+                                  !.skipped = @ \/ (s.st.k = "Running" /\ LineAt(s.ix) \in g.arm /\ g.stopIx # s.ix),
+                                  !.skippedP = @ \/ (s.st.k = "Running" /\ g.probe.on /\ s.ix > g.probe.ix /\ LineAt(s.ix) \in g.probe.L /\ g.stopIx # s.ix)]
                    ELSE g
            /\ UNCHANGED <<req, cl, nreq, lk>>
 
 (* client *)
-Allowed == CASE cl = "running" -> {"pause", "setBps"}
+Allowed == CASE cl = "running" -> {"pause", "setBps", "probe"}
              [] cl = "stopped" -> {"continue", "stepIn", "next", "stepOut", "setBps", "inspect"}
              [] OTHER -> {}
 Send == /\ req.k = "none" /\ nreq < MaxReq
@@ -85,7 +95,7 @@ Send == /\ req.k = "none" /\ nreq < MaxReq
 Idle == s.sp = "idle"
 Atomic == "PauseRace" \notin Deviations
 PauseNow(sn) == IF Atomic THEN PSet(PRead(R, sn)) ELSE PRead(R, sn)
-GStop(gn, sn) == [gn EXCEPT !.halt = Halt(sn, sn.rix), !.stopIx = sn.ix,
+GStop(gn, sn) == [gn EXCEPT !.halt = Halt(sn, sn.rix), !.stopIx = sn.ix, !.probe = [on |-> FALSE, ix |-> 0, L |-> {}],
                             !.stepBad = @ \/ (gn.stepFrom # 0 /\ sn.ix \notin gn.stepWant), !.stepFrom = 0]
 
 TakeLock == Idle /\ lk = "free" /\ req.k # "none" /\ ~(req.k = "inspect" /\ g.insp.on) /\ lk' = "session" /\ UNCHANGED <<s, req, cl, nreq, g>>
@@ -94,8 +104,15 @@ Done == req' = NoReq /\ lk' = "free"
 
 SContinue == /\ Held /\ Idle /\ req.k = "continue" /\ s' = Resume(s) /\ Done
              /\ g' = [g EXCEPT !.halt = NoHalt] /\ UNCHANGED <<cl, nreq>>
-SSetBps   == /\ Held /\ Idle /\ req.k = "setBps" /\ s' = SetBps(s, req.b) /\ Done
-             /\ g' = [g EXCEPT !.arm = @ \cap req.b]           \* armed = installed without interruption since that read
+SSetBps   == /\ Held /\ Idle /\ req.k = "setBps" /\ s' = SetBps(s, BpPcs(req.b)) /\ Done
+             /\ g' = [g EXCEPT !.curL = req.b, !.arm = @ \cap req.b,       \* armed = installed without interruption since that read
+                               !.probe = [@ EXCEPT !.L = @ \cap req.b]]
+             /\ UNCHANGED <<cl, nreq>>
+(* the client reads the registers of the RUNNING machine (Registers scope while no stop is pending): whatever was installed *)
+(* before that reading is armed for every instruction after the instant it saw                                             *)
+SProbe    == /\ Held /\ Idle /\ req.k = "probe" /\ Done
+             /\ g' = [g EXCEPT !.probe = IF s.st.k = "Running" THEN [on |-> TRUE, ix |-> s.ix, L |-> g.curL] ELSE @]
+             /\ UNCHANGED <<s, cl, nreq>>
              /\ UNCHANGED <<cl, nreq>>
 SPause    == /\ Held /\ Idle /\ req.k = "pause" /\ s' = PauseNow(s)
              /\ IF Atomic THEN Done /\ g' = GStop(g, s') ELSE UNCHANGED <<req, lk, g>>
@@ -136,7 +153,7 @@ Forward == /\ Idle /\ lk # "session" /\ s.chan # <<>>
 PollTake == lk = "free" /\ s.conn /\ lk' = "poller" /\ UNCHANGED <<s, req, cl, nreq, g>>
 PollRel  == lk = "poller" /\ lk' = "free" /\ UNCHANGED <<s, req, cl, nreq, g>>
 
-Next == AMRead \/ AMCheck \/ AMExec \/ Send \/ TakeLock \/ SContinue \/ SSetBps \/ SPause \/ SStep \/ SPRead \/ SPSet
+Next == AMRead \/ AMCheck \/ AMExec \/ Send \/ TakeLock \/ SContinue \/ SSetBps \/ SProbe \/ SPause \/ SStep \/ SPRead \/ SPSet
         \/ SInsp1 \/ SInsp2 \/ SInspEnd \/ Forward \/ PollTake \/ PollRel
 Spec == Init /\ [][Next]_vars
 
@@ -147,6 +164,9 @@ StoppedIsHalted == g.halt.on => (Pc(R, s.ix) = g.halt.pc /\ s.ix = g.halt.ix)
 InspectConsistent == (g.insp.seen /\ g.halt.on) => Pc(R, g.insp.ix) = g.insp.pc
 (* a free-running instruction at a breakpoint installed before that iteration read the state is preceded by a stop there *)
 NoSkippedBreakpoint == ~g.skipped
+(* the same seen from the client: after it has read the running machine's registers at instant p, no instruction after p *)
+(* on a line whose breakpoint was installed before that reading (and kept) runs without a stop there                     *)
+NoSkipAfterProbe == ~g.skippedP
 (* a completed step ends where the property says (next: behind the call; stepOut: behind the call of this subroutine) *)
 StepExact == ~g.stepBad
 
@@ -167,4 +187,5 @@ NeverStopped == ~g.halt.on
 NeverTerminated == cl # "terminated"
 NeverStepOutInSub == ~(g.stepFrom # 0 /\ s.kind = "stepOut" /\ Depth(R[g.stepFrom]) > 0)
 NeverRace == ~g.race
+NeverProbeArmed == ~(g.probe.on /\ g.probe.L # {})
 ================================================================================
